@@ -148,6 +148,40 @@ def run(tier):
                 if ent.get("paired"):
                     pass
                 rep.check(ok, "field-class", inst, "RESET field is no longer re-established by the document boundary handlers (%s)" % ent["reason"], detail=det)
+            elif cls == "RESTORED":
+                stack = ent["stack"]
+                allowed = {ent["saved_in"], ent["restored_in"]} | set(ent.get("other_writers", []))
+                det = {"writers": sorted(short(k) for k in wk - ctor)}
+                okr = (wk - ctor) <= allowed
+                # saved: a push onto the stack whose argument reads the field, before the field is written, on every accepting path
+                sv = F.fn(ent["saved_in"])
+                pushes = []
+                for w in cfg.field_writes(sv, owner, stack):
+                    if w["kind"] == "borrow_mut" and w.get("use") and (w["use"]["callee"] or "").endswith("::push"):
+                        tcall = sv.blocks[w["use"]["bb"]]["term"]
+                        if nm in (cfg.expr_fields_all(cfg.expr_operand(sv, tcall["args"][-1], 8)) if hasattr(cfg, "expr_fields_all") else cfg.expr_str(cfg.expr_operand(sv, tcall["args"][-1], 8))):
+                            pushes.append(w["use"]["bb"])
+                fw = [w["bb"] for w in cfg.field_writes(sv, owner, nm) if w["kind"] == "assign"]
+                saved = bool(pushes) and cfg.escapes(sv, 0, set(pushes), cfg.err_sink_blocks(sv)) is None \
+                    and all(any(pb in sv.dominators().get(b, ()) or pb == b for pb in pushes) for b in fw)
+                det["saved_before_written"] = saved
+                # restored: assigned from a pop of the stack on every accepting path
+                rs = F.fn(ent["restored_in"])
+                rws = []
+                for w in cfg.field_writes(rs, owner, nm):
+                    if w["kind"] == "assign" or w["kind"] == "call_dest":
+                        e = cfg.expr_operand(rs, w["stmt"]["rv"]["a"], 10) if w["kind"] == "assign" and w["stmt"]["rv"]["k"] == "use" else None
+                        txt = cfg.expr_str(e) if e else ""
+                        if w["kind"] == "call_dest":
+                            txt = " ".join(cfg.expr_str(cfg.expr_operand(rs, a, 10)) for a in w["term"]["args"])
+                        if "::pop(" in txt and stack in txt:
+                            rws.append(w["bb"])
+                restored = bool(rws) and cfg.escapes(rs, 0, set(rws), cfg.err_sink_blocks(rs)) is None
+                det["restored_on_every_path"] = restored
+                # the stack itself is PAIRED
+                paired = ftab.get(stack, {}).get("class") == "PAIRED"
+                rep.check(okr and saved and restored and paired, "field-class", inst, "RESTORED field is no longer saved when a flow collection opens and restored from "
+                          "the same stack when it closes (or has a new writer): it can keep a value set inside a collection after the collection, and the document, end", detail=det)
             elif cls == "RESET_BY":
                 want = set(ent["writers_reset"])
                 # the resetter assigns the constant `true`/initial value on every path
